@@ -208,6 +208,24 @@ def F_nilStructDeref (i : IfaceSpec) (calls : List Call) : Bool :=
         isStructParam p && !(fieldsOf p).isEmpty &&
         (match getKV c.args p.name with | some (.struct true _) => true | _ => false)))
 
+/-- `alias=` occurs somewhere in the text -/
+def containsAliasEq : List Char → Bool
+  | [] => false
+  | c :: cs => (stripPrefix aliasEq (c :: cs)).isSome || containsAliasEq cs
+
+/-- some path of the interface spells `alias=` literally -/
+def aliasInPath (i : IfaceSpec) : Bool := i.methods.any (fun m => containsAliasEq m.path)
+
+/-- F_aliasInPath: `parseAlias` looks for `\Walias=` on EVERY line that starts with `shoot:` and takes the first hit, so a
+    path segment such as `/alias=x` on the request line is read as the alias directive (with no pairs in it) and the real
+    alias line below is never looked at: the method is generated without its aliases. Inside the quantifier (paths with
+    literal segments × alias directives). The region is cut to the methods whose placeholders do not go through an alias
+    (those that do lose the parameter the placeholder stands for and the output does not compile: `Out`, model-vs-code only). -/
+def F_aliasInPath (i : IfaceSpec) : Bool :=
+  i.methods.any (fun m => containsAliasEq m.path && !m.alias.isEmpty) &&
+  i.methods.all (fun m => !containsAliasEq m.path ||
+    (placeholders m.path).all (fun n => !m.alias.any (fun kv => kv.2 == String.ofList n)))
+
 def shapeOk (i : IfaceSpec) : Bool :=
   i.methods.all methodShapeOk && distinct (i.methods.map (·.name)) && !i.methods.isEmpty
 
@@ -218,6 +236,7 @@ def region (i : IfaceSpec) (calls : List Call) : String :=
   else if !i.methods.all aliasInjective then "Rejected"
   else if F_ptrDict i then "F_ptrDict"
   else if F_nilStructDeref i calls then "F_nilStructDeref"
+  else if aliasInPath i then (if F_aliasInPath i then "F_aliasInPath" else "Out")
   else "WF"
 
 /-- the model's answer for one call: generate the client from the doc texts, then run the method -/
